@@ -22,6 +22,9 @@ type SrcCase struct {
 	// Style 1: the grammar written like the library's JSON example (tokens left-trimmed, base
 	// alternative first, Trim around the root) instead of Trim around every token
 	Style int `json:"style,omitempty"`
+	// Name: how the parsed file is called (0: "f"; see fileNameKind: unnamed, "./f", ...): the location
+	// in an error message names the file the way the caller named it
+	Name int `json:"name,omitempty"`
 }
 
 func (c *SrcCase) Describe() string {
@@ -33,6 +36,12 @@ func (c *SrcCase) Describe() string {
 
 var arithP = arithParser()
 var arithP1 = arithParserStyle(1)
+var arithP2 = arithParserStyle(2)
+
+type arithOpts struct {
+	Fresh, ReaderFirst bool
+	Style, Name        int
+}
 
 func checkC05(ci interface{}, st *Stats) error {
 	c := ci.(*SrcCase)
@@ -47,19 +56,29 @@ func checkC05(ci interface{}, st *Stats) error {
 	if c.Style == 1 {
 		st.Class("grammar in the JSON example's style (left-trimmed tokens, trimmed root)")
 	}
-	return checkArithAt(c.Src, c.Pre, st, c.Fresh, c.ReaderFirst, c.Style == 1)
+	if c.Style == 2 {
+		st.Class("operators are terminal.Op tokens")
+	}
+	if c.Name != 0 {
+		st.Class("file name other than a plain word (none, ./f, d/../f, ...)")
+	}
+	return checkArithAt(c.Src, c.Pre, st, arithOpts{c.Fresh, c.ReaderFirst, c.Style, c.Name})
 }
 
-func checkArith(s string, st *Stats) error { return checkArithAt(s, 0, st) }
+func checkArith(s string, st *Stats) error { return checkArithAt(s, 0, st, arithOpts{}) }
 
-func checkArithAt(s string, pre int, st *Stats, fresh ...bool) error {
-	p, style := arithP, 0
-	if len(fresh) > 2 && fresh[2] {
-		p, style = arithP1, 1
+func checkArithAt(s string, pre int, st *Stats, o arithOpts) error {
+	p := arithP
+	switch o.Style {
+	case 1:
+		p = arithP1
+	case 2:
+		p = arithP2
 	}
-	if len(fresh) > 0 && fresh[0] {
-		p = arithParserStyle(style)
+	if o.Fresh {
+		p = arithParserStyle(o.Style)
 	}
+	name := fileNameKind(o.Name)
 	want, werr := refEval(s)
 	if st != nil {
 		switch {
@@ -69,10 +88,10 @@ func checkArithAt(s string, pre int, st *Stats, fresh ...bool) error {
 			st.Class("source longer than 100 bytes")
 		}
 	}
-	ctx, _, _ := NewCtxAt(s, pre)
-	if len(fresh) > 1 && fresh[1] && pre > 0 {
+	ctx, _, _ := NewCtxAtNamed(name, s, pre)
+	if o.ReaderFirst && pre > 0 {
 		// the reader exists before its file gets its place behind another file
-		f := newFileOwned("f", []byte(s))
+		f := newFileOwned(name, []byte(s))
 		rd := text.NewReader(f)
 		ctx = parsley.NewContext(parsley.NewFileSet(text.NewFile("pre", []byte(strings.Repeat("x", pre))), f, text.NewFile("post", []byte("y"))), rd)
 		if st != nil {
@@ -117,7 +136,7 @@ func checkArithAt(s string, pre int, st *Stats, fresh ...bool) error {
 		}
 		norm := string(normCRLF([]byte(s)))
 		l, c := lineCol(norm, want.err.off)
-		exp := fmt.Sprintf("division by zero at f:%d:%d", l, c)
+		exp := "division by zero at " + locText(name, l, c)
 		if gerr == nil || gerr.Error() != exp {
 			return fmt.Errorf("want error %q, got value %v / error %v", exp, got, gerr)
 		}
@@ -203,7 +222,8 @@ func init() {
 			if rapid.IntRange(0, 4).Draw(t, "placed") == 2 {
 				pre = rapid.SampledFrom([]int{1, 2, 5, 20, 300, 65536}).Draw(t, "pre")
 			}
-			return &SrcCase{Src: s, Pre: pre, Fresh: rapid.Bool().Draw(t, "fresh"), ReaderFirst: rapid.Bool().Draw(t, "readerFirst"), Style: rapid.IntRange(0, 2).Draw(t, "style") / 2}
+			return &SrcCase{Src: s, Pre: pre, Fresh: rapid.Bool().Draw(t, "fresh"), ReaderFirst: rapid.Bool().Draw(t, "readerFirst"), Style: rapid.SampledFrom([]int{0, 0, 1, 2}).Draw(t, "style"),
+				Name: rapid.SampledFrom([]int{0, 0, 0, 1, 2, 3, 4, 5, 6}).Draw(t, "name")}
 		},
 		Check: checkC05,
 	})
